@@ -33,6 +33,8 @@ type c09Case struct {
 	RepairFault string `json:"repair_fault,omitempty"`
 	// Enumerate: ignore the Fault fields and enumerate every single-fault placement x variant over the writes
 	Enumerate bool `json:"enumerate,omitempty"`
+	// Race: a client write on the same key performed between the repair's read and its rewrite commit
+	Race string `json:"race,omitempty"` // "" | update | delete
 	// Timed: the real retry loop fires by its timers (20 ms / 4 ms); otherwise the harness triggers the repair
 	// step itself at Wait steps (retry interval 0, loop ticker 1 h), which makes histories deterministic
 	Timed bool `json:"timed,omitempty"`
@@ -70,6 +72,9 @@ func genC09(t *rapid.T) interface{} {
 		}
 	}
 	c.RepairFault = rapid.SampledFrom([]string{"", "", "", "applied", "notapplied", "error"}).Draw(t, "repairFault")
+	if !c.Timed {
+		c.Race = rapid.SampledFrom([]string{"", "", "update", "delete"}).Draw(t, "race")
+	}
 	return c
 }
 
@@ -107,6 +112,9 @@ func c09Exec(c *c09Case, faults map[int]string, st *CaseStats) (rewrites int, re
 	answeredUnknown := false // the engine really answered 'outcome unknown' to the armed commit
 	repairArmed := c.RepairFault
 	repairCommits := 0
+	raceArmed := c.Race
+	raced := false
+	var raceErr error
 	shim.OnCommit = func(ci *CommitInfo) Decision {
 		mu.Lock()
 		defer mu.Unlock()
@@ -116,6 +124,26 @@ func c09Exec(c *c09Case, faults map[int]string, st *CaseStats) (rewrites int, re
 		if ci.Client < 0 {
 			// a commit without a client: the background repair (rewrite) of an unknown-outcome write
 			repairCommits++
+			if raceArmed != "" && !c.Timed {
+				// a client changes the key between the repair's read and its commit: the rewrite must give way
+				kind := raceArmed
+				raceArmed = ""
+				ki := -1
+				for i, k := range keys {
+					if k == string(ci.RawKey) {
+						ki = i
+					}
+				}
+				if ki >= 0 {
+					mu.Unlock()
+					_, rerr := env.DoWrite(WOp{Kind: kind, K: ki, Exp: "ok"})
+					mu.Lock()
+					raced = true
+					if rerr != nil && raceErr == nil {
+						raceErr = rerr
+					}
+				}
+			}
 			if repairArmed != "" {
 				v := repairArmed
 				repairArmed = ""
@@ -309,6 +337,16 @@ func c09Exec(c *c09Case, faults map[int]string, st *CaseStats) (rewrites int, re
 	}
 	if err := waitDrain(); err != nil {
 		return rewrites, repairFaulted, err
+	}
+	mu.Lock()
+	rerr, didRace := raceErr, raced
+	mu.Unlock()
+	if rerr != nil {
+		return rewrites, repairFaulted, fmt.Errorf("client write racing with the repair: %v", rerr)
+	}
+	if didRace {
+		st.Label("client-write-between-repair-read-and-commit")
+		repairFaulted = true
 	}
 	// later requests keep flowing; store and watch stream converge
 	fk := Prefix + "/~fence"
